@@ -192,8 +192,9 @@ def _run_chunk(check_id, tier, seed, idx, units, outdir, timeout, env):
     try:
         with open(lf, 'wb') as log:
             r = subprocess.run(
-                [common.PY, '-m', 'vf.worker', check_id, tier, str(seed),
-                 uf, of],
+                [common.PY] + (['-m', 'vf.worker'] if not os.environ.get('VF_WORKER_SCRIPT')
+                               else [os.environ['VF_WORKER_SCRIPT']])
+                + [check_id, tier, str(seed), uf, of],
                 cwd=common.VERIF_DIR, env=env, stdout=log, stderr=log,
                 stdin=subprocess.DEVNULL, timeout=timeout)
         rc = r.returncode
